@@ -241,6 +241,29 @@ add("C11", "fixed", "rewrite-differs:inline-comment-in-liquid-tag",
      {"kind": "rewrite", "nodes": [["liquid", [["out", "'v'"], ["inline", "note"]]]], "print_seed": 1, "wc": 0.0, "tight": 0.0, "delims": ["[%", "%]", "[[", "]]", "J#", "%J"], "flags": {}, "data": V.enc({}), "mode": "strict", "async": False}],
     "6bc5308")
 
+# ----------------------------------------------------------------------------- C09 open
+# Recursive partials / block structures placed inside nested blocks use ~3 Python frames per block level and ~14 per partial level, so the
+# interpreter's stack (1000 frames) is exhausted before context_depth_limit (30) cuts the recursion off.  Measured first overflow (sync, one
+# plain block = 1 unit, case/when = 1.5): render 6, include 13, block-structure 2, include-in-block 4, render-extends 10; listed from one unit
+# below (the threshold moves with the caller's own stack depth).  Recursion at block depth 0 is cut off properly and is NOT listed.
+_C09_LADDER = [0, 1, 2, 3, 4, 5, 6, 9, 12, 20]
+for _fam, _t, _what in (
+    ("render", 5, "{% render 'self' %} nested in 6 or more blocks (4 case/when pairs)"),
+    ("mixed", 5, "a render cycle entered through nested blocks"),
+    ("include", 12, "{% include 'self' %} nested in 13 or more if/unless/case/capture blocks"),
+    ("block-structure", 1, "block x{ block y{ block.super } } over block y{ block x{} } with 2 or more blocks around the inner block"),
+    ("include-in-block", 3, "an include inside an overridden block that leads back to the extending template, nested in 4 or more blocks"),
+    ("render-extends", 9, "a render inside an overridden block that leads back to the extending template, nested in 10 or more blocks"),
+):
+    for _l in _C09_LADDER:
+        if _l >= _t:
+            _w = ["if"] * max(_l, _t + 1)
+            add("C09", "open", f"python-stack-exhausted:{_fam}:block-depth>={_l}",
+                f"recursive family '{_fam}': {_what} raises RecursionError (sometimes re-labelled LiquidError 'unexpected liquid parsing error' when it strikes while a partial is being parsed) "
+                f"instead of ContextDepthError / TemplateInheritanceError; each block level costs about three interpreter frames and each partial level about fourteen, so 30 context levels "
+                f"do not fit into the 1000-frame stack",
+                [{"kind": "family", "family": _fam, "cycle": 1, "wrappers": _w, "async": False, "must_cut": True, "tags": ["render"]}] if _l in (6, 12, 2, 4, 9) else [])
+
 if __name__ == "__main__":
     # further entries are appended by tools/mkfindings.py from triaged replay files and kept in findings_extra.json
     extra_path = os.path.join(VERIF, "tools", "findings_extra.json")
